@@ -423,6 +423,41 @@ example (W : World) (f : Func) (a b c : Val) :
     evalForm W (.secMix [.spreadHole 2, .lit 1]) f [a, b, c] = app W f [a, b, c] :=
   ⟨mixed_section_agrees W f _ _ rfl rfl, rfl, mixed_section_agrees W f _ _ rfl rfl⟩
 
+
+/-! ## 4c. op-assignment whose right-hand side mentions the target itself -/
+
+/-- the right-hand side is evaluated while the variable still holds its old value: `x f= x` is
+`f(x, x)`, `x f= g(x)` is `f(x, g(x))`, `x f= (x; b)` is `f(x, b)` -/
+theorem op_assign_self_agrees (W : World) (f : Func) (a b : Val) (c : Nat) :
+    evalForm W .opSelf f [a] = app W f [a, a] ∧
+    evalForm W (.opSelfApp c) f [a] = (app W (.closure c) [a]).bind (fun r => app W f [a, r]) ∧
+    evalForm W .opSeq f [a, b] = app W f [a, b] := by
+  refine ⟨?_, ?_, ?_⟩
+  · simp [evalForm, opAssignThenRead, evalRhs, app_eq, func_run_two]
+  · simp only [evalForm, opAssignThenRead, evalRhs, app_eq]
+    cases Func.run W (.closure c) [a] <;> simp [func_run_two]
+  · simp [evalForm, opAssignThenRead, evalRhs, app_eq, func_run_two]
+
+/-- a right-hand side that raises leaves the variable with its old value (the slot is nulled only
+after the right-hand side has been evaluated) -/
+theorem op_assign_rhs_fails_keeps (W : World) (f : Func) (a : Val) :
+    evalForm W .opRhsFails f [a] = .ok a := by
+  simp [evalForm, opAssignSlot, evalRhs]
+
+/-- … whereas an operator that raises leaves `null` behind (documented semantics, not a finding),
+and a successful statement leaves the combined value -/
+theorem op_assign_slot (W : World) (f : Func) (a b : Val) :
+    (∀ c, f.run2 W a b = .ok c → opAssignSlot W a (.func f) (.const b) = c) ∧
+    (f.run2 W a b = .throw → opAssignSlot W a (.func f) (.const b) = nullVal) := by
+  constructor
+  · intro c h; simp [opAssignSlot, evalRhs, h]
+  · intro h; simp [opAssignSlot, evalRhs, h]
+
+/-- the statement-level model agrees with the value-level `evalOpAssign` on independent right-hand sides -/
+theorem op_assign_stmt_const (W : World) (op x b : Val) :
+    opAssignThenRead W x op (.const b) = evalOpAssign W x op b := by
+  cases op <;> simp [opAssignThenRead, evalOpAssign, evalRhs]
+
 /-! ## 5. one-argument calls are right sections -/
 
 /-- the family's own guard decides the partial-application arm, and the wrapper it builds -/
@@ -542,6 +577,18 @@ theorem forms_agree (W : World) (form : Form) (f : Func) (args : List Val) (hf :
   cases form with
   | secMix pat => exact mixed_section_agrees W f pat args hside.1 hside.2
   | listMix pat => exact mixed_list_section W f pat args hside.1 hside.2
+  | opSelf =>
+    match args, hlen with
+    | [a], _ => exact (op_assign_self_agrees W f a a 0).1
+  | opSelfApp c =>
+    match args, hlen with
+    | [a], _ => exact (op_assign_self_agrees W f a a c).2.1
+  | opSeq =>
+    match args, hlen with
+    | [a, b], _ => exact (op_assign_self_agrees W f a b 0).2.2
+  | opRhsFails =>
+    match args, hlen with
+    | [a], _ => exact op_assign_rhs_fails_keeps W f a
   | call => exact (call_agrees W f args).1
   | bang => exact (call_agrees W f args).2
   | infixOp =>
